@@ -127,7 +127,7 @@ def corpus_cases():
     return []
 
 
-def gen_ent(rng, i, known):
+def gen_ent(rng, i, known, plain_ok=True):
     refs = {}
     # each predicate has its own targets: a (source, target) pair is only ever linked by one predicate, which keeps the
     # histories off C03's finding F03a (inverse scan keeps one deleted flag per source, not per predicate)
@@ -137,7 +137,7 @@ def gen_ent(rng, i, known):
                 refs[k] = rng.choice(tg)
             else:
                 refs[k] = [rng.choice(tg) for _ in range(rng.range(1, 2))]
-    e = E(i, rng.choice(["a", "b", "c"]), refs, rng.chance(1, 6))
+    e = E(i, rng.choice(["a", "b", "c"]), refs, plain_ok and rng.chance(1, 6))
     known.add(i)
     for v in refs.values():
         for t in (v if isinstance(v, list) else [v]):
@@ -170,28 +170,61 @@ def gen_reads(rng, known, few):
 
 
 def gen_case(rng, nops, crashy):
+    """Reference tombstones (a version that drops a reference, or a deleted version) are confined to ONE dataset, the first
+    "a" (followed through renames): every other dataset gets each id at most once and never deleted, and a name involved in a
+    crash is not written again.  This keeps the histories where the incoming scan of GetRelatedAtTime (C03) is exact: with
+    tombstones of one (source, target) pair in two datasets its per-dataset spill-over map goes stale (reported to C03)."""
     ops = [{"op": "create", "ds": "a"}, {"op": "create", "ds": "b"}]
     known = set()
+    free = {"a"}            # names of the one dataset that may hold several versions per id
+    frozen = set()          # names involved in a crash: never written again
+    once = {}               # name -> ids already written (datasets other than the free one)
     for _ in range(nops):
         r = rng.below(100)
         if r < 40:
             n = rng.choice(NAMES[:3] if rng.chance(9, 10) else NAMES + ["zz"])
+            if n in frozen:
+                continue
             ids = list(IDS)
             rng.shuffle(ids)
-            ops.append({"op": "batch", "ds": n, "ents": [gen_ent(rng, i, known) for i in ids[:rng.choice([1, 2, 2, 3])]]})
+            ids = ids[:rng.choice([1, 2, 2, 3])]
+            if n not in free:
+                ids = [i for i in ids if i not in once.setdefault(n, set())]
+                once[n].update(ids)
+            if ids:
+                ops.append({"op": "batch", "ds": n, "ents": [gen_ent(rng, i, known, n in free) for i in ids]})
         elif r < 50:
             ops.append({"op": "create", "ds": rng.choice(NAMES)})
         elif r < 62:
-            ops.append({"op": "delete", "ds": rng.choice(NAMES[:3] + ([CORE, "zz"] if rng.chance(1, 6) else []))})
+            n = rng.choice(NAMES[:3] + ([CORE, "zz"] if rng.chance(1, 6) else []))
+            ops.append({"op": "delete", "ds": n})
+            free.discard(n)
+            once.pop(n, None)
         elif r < 72:
-            ops.append({"op": "rename", "ds": rng.choice(NAMES + ([CORE] if rng.chance(1, 8) else [])), "to": rng.choice(NAMES + ([CORE] if rng.chance(1, 10) else []))})
+            o = rng.choice(NAMES + ([CORE] if rng.chance(1, 8) else []))
+            n = rng.choice(NAMES + ([CORE] if rng.chance(1, 10) else []))
+            ops.append({"op": "rename", "ds": o, "to": n})
+            if o != n and o != CORE and n != CORE:
+                # whether the rename succeeds depends on the registry: be conservative about both names
+                if o in free or n in free:
+                    free.discard(o)
+                    free.discard(n)
+                    frozen.update([o, n])
+                else:
+                    merged = once.pop(o, set()) | once.pop(n, set())
+                    once[o] = set(merged)
+                    once[n] = set(merged)
         elif r < 80:
             ops.append({"op": "gc"})
         elif r < 86:
             ops.append({"op": "restart"})
         elif r < 86 + (10 if crashy else 0):
             mop = rng.choice(["create", "delete", "delete", "rename"])
-            ops.append(crash(mop, rng.choice(NAMES[:3]), rng.range(1, 3), rng.choice(NAMES) if mop == "rename" else None))
+            c = crash(mop, rng.choice(NAMES[:3]), rng.range(1, 3), rng.choice(NAMES) if mop == "rename" else None)
+            ops.append(c)
+            frozen.add(c["ds"])
+            if c.get("to"):
+                frozen.add(c["to"])
         else:
             ops += gen_reads(rng, known, True)
         if rng.chance(1, 3):
